@@ -271,7 +271,7 @@ def run(ctx):
                 def is_len(x):
                     return x.k == "agg" and str(x.a).endswith("Some") and [c.a["name"] for c in x.call_nodes()] == ["len"] and any(y.k == "arg" and y.a["name"] == "string" for y in x.walk()) and not any(y.k == "bin" for y in x.walk())
                 def is_payload(x):
-                    return any(y.k == "variant" and str(y.a) == "Continue" for y in x.walk()) and any(c is mc for c in x.call_nodes())
+                    return any(y.k == "variant" and str(y.a) in ("Continue", "Ok") for y in x.walk()) and any(c is mc for c in x.call_nodes())
                 ok = ok and ((is_payload(l) and is_len(r)) or (is_payload(r) and is_len(l)))
                 ok = ok and any(c is mc or c.a["callee"] == "onig::Regex::match_with_param" for c in errs[0].call_nodes())
         ctx.ob("R3", "verdict=whole-string-match", ok, "Pattern::try_matches = %s; oracle: Ok(false) without a regex, otherwise match_with_param(regex, string, at 0, no options, no region)? == Some(string.len())" % desc, fn=pm, how="provenance slice")
